@@ -285,6 +285,12 @@ impl<T: Qcow2IoOps> Qcow2Dev<T> {
         for r in res {
             if r.is_err() {
                 eprintln!("cache slice write failed {r:?}\n");
+                // the dirty flags were cleared before writing; nothing is known
+                // to have reached the disk, so keep these slices dirty and let
+                // the next flush write them again
+                for (_, e) in tv {
+                    e.set_dirty(true);
+                }
                 return r;
             }
         }
